@@ -16,7 +16,8 @@
    races on memory that is not in the table (per-operation contexts are not shared; the race
    detector run of the harness searches for counter-examples).  Hence `_partial`. *)
 From Coq Require Import NArith List Bool.
-From PV Require Import C40.Model C40.Generated C40.Proofs C40.ProofsTable.
+From Coq Require Import String.
+From PV Require Import C40.Model C40.Generated C40.Audit C40.Proofs C40.ProofsTable.
 Import ListNotations.
 Open Scope N_scope.
 
@@ -89,6 +90,17 @@ Print Assumptions C40_one_section_per_function.
 Theorem C40_font_readers_load_first : forall f b, In (f, b) font_readers -> b = true.
 Proof. exact font_readers_load_first. Qed.
 Print Assumptions C40_font_readers_load_first.
+
+(* All shared state is audited: every package-level variable under pkg/ whose type is not immutable is
+   in the audited inventory, and every one that is written, address-taken or has methods called on it
+   outside init() is in the audited list of mutable state (guarded-by-lock-table / atomic / set-up only /
+   read-only-by-inspection, see Audit.v).  A new `var objKeyHash = md5.New()` closes neither. *)
+Theorem C40_shared_state_audited :
+  forall n im wr mc, In (n, (im, (wr, mc))) pkg_vars ->
+    (im = false -> In n audited_all) /\
+    (wr = true \/ (mc = true /\ im = false) -> In n audited_mutable).
+Proof. exact shared_state_audited. Qed.
+Print Assumptions C40_shared_state_audited.
 
 (* model.ConfigPath: writes are guarded (partial) but the discipline as a whole is refuted by
    the unguarded read in model.NewDefaultConfiguration. *)
